@@ -39,7 +39,7 @@ type PrCase struct {
 
 type probeTable struct {
 	mu      sync.Mutex
-	scripts map[string]*int  // host -> current script
+	scripts map[string]*int // host -> current script
 	log     []probeRec
 }
 type probeRec struct {
